@@ -36,7 +36,7 @@ var c05KindNames = []string{"KPlain", "KAcceptor", "KNoCb", "KRejector", "KNotar
 
 // ---------- probes ----------
 
-type c05Fixes struct{ F7, F23 bool }
+type c05Fixes struct{ F7, F23, F47 bool }
 
 var c05FixCache = map[string]*c05Fixes{}
 
@@ -121,6 +121,22 @@ func c05Probe(hf string) (*c05Fixes, error) {
 	if !found {
 		return nil, fmt.Errorf("probe: the voter of the F23 scenario did not vote")
 	}
+	// F47 (needs Faun): set the same whitelist entry twice, read the cached fee through Policy.getWhitelistFeeContracts
+	res.F47 = true
+	if _, faun := c05Hardforks(hf)[config.HFFaun.String()]; faun {
+		ops = []c05Op{{T: "gt", F: 0, To: 13, A: 30000_0000_0000}, {T: "blk"}, {T: "deploy", F: 13}, {T: "blk"},
+			{T: "wl", To: 13, A: 7}, {T: "blk"}, {T: "wl", To: 13, A: 900000}, {T: "blk"}}
+		c, _, err = mk(ops)
+		if err != nil {
+			return nil, err
+		}
+		o := c01Observe(c.bc, c.u, nil)
+		c.close()
+		if len(o.Whitelist) != 2 || o.Whitelist[0] != 13 {
+			return nil, fmt.Errorf("probe: whitelist entry not found (%v %v)", o.Whitelist, o.Err)
+		}
+		res.F47 = o.Whitelist[1] == 900000
+	}
 	c05FixCache[hf] = res
 	return res, nil
 }
@@ -136,10 +152,10 @@ func c05CfgTerm(c *c05Chain, hf string, fx *c05Fixes) string {
 	hfs := c05Hardforks(hf)
 	_, faun := hfs[config.HFFaun.String()]
 	_, gorgon := hfs[config.HFGorgon.String()]
-	return fmt.Sprintf("(mkCfg %s %s %d [%s] %s %s %s %d %s %s %s %s)",
+	return fmt.Sprintf("(mkCfg %s %s %d [%s] %s %s %s %d %s %s %s %s %s)",
 		c05NList(u.acctOfKey), c05NList(u.standby), c.nval, strings.Join(kinds, ";"),
 		c05N(c05ANotary), c05N(c05ANeo), c05N(c05AGas), c.bc.GetConfig().InitialGASSupply,
-		coqBool(faun), coqBool(gorgon), coqBool(fx.F7), coqBool(fx.F23))
+		coqBool(faun), coqBool(gorgon), coqBool(fx.F7), coqBool(fx.F23), coqBool(fx.F47))
 }
 
 func c05OpTerm(c *c05Chain, op c05Op, sysfee int64) string {
@@ -212,13 +228,17 @@ func c05OpTerm(c *c05Chain, op c05Op, sysfee int64) string {
 		return fmt.Sprintf("(OPolicy 19 %s)", coqZi(op.A))
 	case "setattr":
 		return fmt.Sprintf("(OPolicy %d %s)", 5120+op.N, coqZi(op.A))
+	case "wl":
+		return fmt.Sprintf("(OWhitelist %s (Some %s))", c05N(op.To), coqZi(op.A))
+	case "wlrm":
+		return fmt.Sprintf("(OWhitelist %s None)", c05N(op.To))
 	}
 	return "OOpaque"
 }
 
 func c05IsCommitteeOp(t string) bool {
 	switch t {
-	case "setgpb", "setreg", "block", "unblock", "setfpb", "setexec", "setstor", "setattr", "role", "setvub", "setms":
+	case "setgpb", "setreg", "block", "unblock", "setfpb", "setexec", "setstor", "setattr", "role", "setvub", "setms", "wl", "wlrm":
 		return true
 	}
 	return false
@@ -353,8 +373,22 @@ func c01CoqCase(c *c05Chain, in c01Input, blocks []*c05BlockRec, obs []*c01Obs) 
 		pol := []string{fmt.Sprint(o.Policy[0]), fmt.Sprint(o.Policy[1]), fmt.Sprint(o.Policy[2])}
 		blocked := append([]int{}, o.Blocked...)
 		sort.Ints(blocked)
-		bs[i] = fmt.Sprintf("mkGB %s\n     (mkG %s %s %s %s [%s])", c05TxTerms(c, in.Ops, b),
-			c05NList(o.Committee), c05NList(o.NextVals), c05NList(o.NewEpoch), c05NList(blocked), strings.Join(pol, ";"))
+		type wf struct{ a, f int64 }
+		var wl []wf
+		for j := 0; j+1 < len(o.Whitelist); j += 2 {
+			wl = append(wl, wf{o.Whitelist[j], o.Whitelist[j+1]})
+		}
+		sort.Slice(wl, func(x, y int) bool { return wl[x].a < wl[y].a })
+		ws := make([]string, len(wl))
+		for j, x := range wl {
+			a := x.a
+			if a < 0 {
+				a = 999 // an entry of a contract outside the universe: the model cannot have it
+			}
+			ws[j] = fmt.Sprintf("(%d%%N,%d)", a, x.f)
+		}
+		bs[i] = fmt.Sprintf("mkGB %s\n     (mkG %s %s %s %s [%s] [%s])", c05TxTerms(c, in.Ops, b),
+			c05NList(o.Committee), c05NList(o.NextVals), c05NList(o.NewEpoch), c05NList(blocked), strings.Join(pol, ";"), strings.Join(ws, ";"))
 	}
 	return fmt.Sprintf("CGov %s [%s]\n   [%s]", c05CfgTerm(c, in.Proto.HF, fx), strings.Join(restarts, ";"), strings.Join(bs, ";\n    "))
 }
